@@ -61,6 +61,9 @@ func main() {
 	flag.Parse()
 	alpha := []byte{'/', '.', 'a', '\\'}
 	maxLen := 8
+	if vcommon.Thorough() {
+		maxLen = 10
+	}
 	var viols []vcommon.Violation
 	evals, climbers := 0, 0
 	check := func(p string) {
@@ -109,7 +112,7 @@ func main() {
 	vcommon.WriteEvidence(&vcommon.Evidence{PropertyID: "C17", Level: "exploration", Violations: n,
 		Coverage: map[string]any{
 			"evaluations": evals, "distinct_nontrivial": climbers,
-			"rule":       "every string of length <= 8 over {'/', '.', 'a', '\\\\'} (87 381 URL paths) x 12 bases (absolute, relative, '.', trailing slash, '..' inside and leading); the result must be the cleaned base or lexically beneath it (segment-wise, no '..' below the base), and for paths free of dot segments equal Clean(base + '/' + path); non-trivial = paths containing '..'",
+			"rule":       "every string of length <= " + fmt.Sprint(maxLen) + " over {'/', '.', 'a', '\\\\'} x 12 bases (absolute, relative, '.', trailing slash, '..' inside and leading); the result must be the cleaned base or lexically beneath it (segment-wise, no '..' below the base), and for paths free of dot segments equal Clean(base + '/' + path); non-trivial = paths containing '..'",
 			"exhaustive": true, "bases": bases, "samples": []any{"/../a", "..", "/a/..//../.", "\\..\\a"},
 		},
 		Assumptions: []string{"POSIX file system: the backslash is an ordinary character", "containment is lexical (symbolic links on disk are outside the function's contract)"}})
